@@ -233,3 +233,12 @@ Proof. vm_compute. split; reflexivity. Qed.
 Lemma patched_restart_shows_new_version :
   mem_view (run_m true shadow_history) 0 = Some 2 /\ restart_view (run_m true shadow_history) 0 = Some 2.
 Proof. vm_compute. split; reflexivity. Qed.
+
+(* a state file that manager.New does not accept (it does not parse, or it parses and fails the validation:
+   [s_ok] = accepted) contributes nothing to the recovered state, wherever it sorts in the directory *)
+Lemma rejected_state_file_contributes_nothing : forall {S} (d1 d2 : list (sfile S)) f,
+  s_ok f = false -> recover_state (d1 ++ f :: d2) = recover_state (d1 ++ d2).
+Proof.
+  intros S d1 d2 f H. rewrite (recover_state_ignores_torn S (d1 ++ f :: d2)), (recover_state_ignores_torn S (d1 ++ d2)).
+  rewrite !filter_app. simpl. rewrite H. reflexivity.
+Qed.
